@@ -300,6 +300,25 @@ reg(
     "DESIGN.md section 4 C03",
 )
 
+reg(
+    "C12",
+    "TLA+ R-spec of a register-backed configuration area (CfgArea.tla extends the bit-vector register spec of C11 with the area actions Template / "
+    "LoadConfig / SetValues / Export / Parse / GetConfig / NewObject, computed-field rules (inverse half-words, CRC fact, ROTKH fact), seal words, "
+    "size bit-field, conditional registers, alternative-width groups); CfgAreaMC checks the property's clauses as lemmas on small layouts; "
+    "CfgAreaGen -simulate emits operation schedules; every (kind, family, revision, sub-area) the area classes' own queries return is driven "
+    "through canonical and generated schedules on the real classes; layouts are read from the database files, never from SPSDK's register objects; "
+    "CfgAreaTrace (batch trace validation) recomputes every logged step and names the failing clause and register",
+    "Model checking of the area semantics within small bounds + trace validation of every real operation. Quick: all 802 areas instantiated, 101 "
+    "classes of byte-identical database content run the full schedules (template -> schema -> load -> export -> size -> parse -> re-export -> "
+    "get_config -> load, edge and mixed in-range values, second object). Thorough: full schedules on every area, value sweep and generated histories.",
+    "Trusted: TLC, PyYAML safe_load as the YAML judge, json, hashlib, `cryptography` for EC key generation only, a bit-serial CRC-32/MPEG-2, binary "
+    "sizes from the reference manuals, register presets / offsets / seal ranges of the database as ground truth (a change that alters them consistently "
+    "on both sides is outside the oracle). Hidden registers are never written (parse skips them); fuse maps have no binary form; shadow registers are "
+    "not importable here; data-level clauses (no overlap, unique bit-field names, bit-fields tile the register, groups consistent) are reported once per "
+    "register file with a dynamic witness in tools/findings/C12.md.",
+    "DESIGN.md section 4 C12",
+)
+
 NOT_YET = {
 }
 
